@@ -37,5 +37,5 @@ for c in $CHECKS; do
   echo "check $c exit=$R" | tee -a $S/checks.txt
   grep -E "^VIOLATION|^  clause|^  inputs|^INCONCLUSIVE|^$c " /var/tmp/verif-scratch/seed-$ID-$c.log | cut -c1-400 | head -12 | tee -a $S/checks.txt
 done
-rm -rf $M /var/tmp/verif-scratch/native-* /var/tmp/verif-scratch/out-$ID
+rm -rf $M /var/tmp/verif-scratch/out-$ID; [ -n "${KEEP_NATIVE:-}" ] || rm -rf /var/tmp/verif-scratch/native-*
 echo "A=$A B=$B C=$C C2=$C2" > $S/confirm.txt
